@@ -205,6 +205,33 @@ func (am *ACMEIssuer) deleteAccountLocally(ctx context.Context, ca string, accou
 	return am.config.Storage.Delete(ctx, am.storageKeyUserPrivateKey(ca, primaryContact))
 }
 
+// deleteAccountLocallyIfCurrent deletes the locally stored account for the given CA only if it
+// still is the given account (which the CA has reported as nonexistent). It holds the account
+// registration lock while it compares and deletes, so that it cannot delete an account that
+// another issuance has registered and saved in the meantime (that also happens under the lock).
+func (am *ACMEIssuer) deleteAccountLocallyIfCurrent(ctx context.Context, ca string, account acme.Account) error {
+	acctLockKey := accountRegLockKey(account)
+	if err := acquireLock(ctx, am.config.Storage, acctLockKey); err != nil {
+		return fmt.Errorf("locking account registration: %v", err)
+	}
+	defer func() {
+		if err := releaseLock(ctx, am.config.Storage, acctLockKey); err != nil {
+			am.Logger.Error("failed to unlock account registration lock", zap.Error(err))
+		}
+	}()
+	stored, err := am.loadAccount(ctx, ca, getPrimaryContact(account))
+	if errors.Is(err, fs.ErrNotExist) {
+		return nil // already deleted
+	}
+	if err != nil {
+		return err
+	}
+	if stored.Location != account.Location {
+		return nil // already replaced by a newer account
+	}
+	return am.deleteAccountLocally(ctx, ca, account)
+}
+
 // setEmail does everything it can to obtain an email address
 // from the user within the scope of memory and storage to use
 // for ACME TLS. If it cannot get an email address, it does nothing
